@@ -138,6 +138,16 @@ CHECKS = [
              "tree has no developer flags, so the lock is vacuous there",
      "not_covered": ["settings changed after construction through private attributes"],
      },
+    {"id": "C13", "level": "proof", "modules": ["contracts.C13_selection", "contracts.C07_mask"], "bounded": ["bounded.C13_combinations"],
+     "technique": "deductive verification of the argmin selection (symbolic criteria incl. NaN) and of the row routing on the row-wise model (pyvc, z3) + bounded-exhaustive enumeration of the real candidate generator",
+     "text": "Proof: the real _best_combination returns the first candidate whose criterion is <= every other finite one, never a NaN-scored "
+             "candidate, for every NaN pattern of up to 4 candidates and all real criterion values; the real _predict/_meter_segment give each "
+             "predicted row the split name of the unique component whose (season, day type) cell contains it (symbolic month and weekday). "
+             "Bounded-exhaustive (labelled so): the real _combinations over the finite space of allow flags x ellipsoid outcomes x day counts; real "
+             "predictions via from_dict for every candidate split string x custom season / weekday maps x every date of 2023-2024.",
+     "note": "the argmin proof unrolls the candidate list (length fixed per case); selection_criteria's formulas and the ellipsoid filter itself are not under contract",
+     "not_covered": ["the published formula of each selection criterion", "that the ellipsoid filter honours custom weekday maps (it hard-codes Mon-Fri)"],
+     },
 ]
 _NOT_BUILT = "machinery for this property is not built yet (see DESIGN.md §7 build order); not claimed"
 NOT_APPLICABLE = [{"property_id": f"C{n:02d}", "reason": _NOT_BUILT} for n in range(1, 21) if n != 15 and f"C{n:02d}" not in {c["id"] for c in CHECKS}] + [
